@@ -138,26 +138,44 @@ pub fn poll_once<F: Future>(fut: Pin<&mut F>, w: &Waker) -> Poll<F::Output> {
 pub enum SH<T> {
     S(Sender<T>),
     A(AsyncSender<T>),
+    /// the SAME handle used through a shared reference by another thread (`&Sender` is `Sync`: scoped threads often
+    /// share one un-cloned handle). The pointee is kept alive by whoever handed the reference out; dropping a `B` does
+    /// nothing and is not a handle event.
+    B(*const SH<T>),
 }
 pub enum RH<T> {
     S(Receiver<T>),
     A(AsyncReceiver<T>),
+    B(*const RH<T>),
 }
+// SAFETY: `B` is only created by `Scn::spawn_shared`, which keeps the pointee alive (boxed, never moved) until every
+// thread using it has been joined; the handles themselves are Send + Sync for T: Send.
+unsafe impl<T: Send> Send for SH<T> {}
+unsafe impl<T: Send> Send for RH<T> {}
 impl<T> SH<T> {
+    pub fn is_borrowed(&self) -> bool {
+        matches!(self, SH::B(_))
+    }
     pub fn sy(&self) -> &Sender<T> {
         match self {
             SH::S(s) => s,
             SH::A(a) => a.as_sync(),
+            SH::B(p) => unsafe { (**p).sy() },
         }
     }
     pub fn asy(&self) -> &AsyncSender<T> {
         match self {
             SH::S(s) => s.as_async(),
             SH::A(a) => a,
+            SH::B(p) => unsafe { (**p).asy() },
         }
     }
     pub fn is_async(&self) -> bool {
-        matches!(self, SH::A(_))
+        match self {
+            SH::A(_) => true,
+            SH::S(_) => false,
+            SH::B(p) => unsafe { (**p).is_async() },
+        }
     }
     /// clone into the requested flavour using the "native" method of this
     /// handle's flavour (clone / clone_sync / clone_async)
@@ -167,30 +185,41 @@ impl<T> SH<T> {
             (SH::S(s), true) => SH::A(s.clone_async()),
             (SH::A(a), false) => SH::S(a.clone_sync()),
             (SH::A(a), true) => SH::A(a.clone()),
+            (SH::B(p), w) => unsafe { (**p).clone_as(w) },
         }
     }
     pub fn convert(self) -> SH<T> {
         match self {
             SH::S(s) => SH::A(s.to_async()),
             SH::A(a) => SH::S(a.to_sync()),
+            SH::B(_) => panic!("harness: a shared (borrowed) handle cannot be converted"),
         }
     }
 }
 impl<T> RH<T> {
+    pub fn is_borrowed(&self) -> bool {
+        matches!(self, RH::B(_))
+    }
     pub fn sy(&self) -> &Receiver<T> {
         match self {
             RH::S(s) => s,
             RH::A(a) => a.as_sync(),
+            RH::B(p) => unsafe { (**p).sy() },
         }
     }
     pub fn asy(&self) -> &AsyncReceiver<T> {
         match self {
             RH::S(s) => s.as_async(),
             RH::A(a) => a,
+            RH::B(p) => unsafe { (**p).asy() },
         }
     }
     pub fn is_async(&self) -> bool {
-        matches!(self, RH::A(_))
+        match self {
+            RH::A(_) => true,
+            RH::S(_) => false,
+            RH::B(p) => unsafe { (**p).is_async() },
+        }
     }
     pub fn clone_as(&self, want_async: bool) -> RH<T> {
         match (self, want_async) {
@@ -198,12 +227,14 @@ impl<T> RH<T> {
             (RH::S(s), true) => RH::A(s.clone_async()),
             (RH::A(a), false) => RH::S(a.clone_sync()),
             (RH::A(a), true) => RH::A(a.clone()),
+            (RH::B(p), w) => unsafe { (**p).clone_as(w) },
         }
     }
     pub fn convert(self) -> RH<T> {
         match self {
             RH::S(s) => RH::A(s.to_async()),
             RH::A(a) => RH::S(a.to_sync()),
+            RH::B(_) => panic!("harness: a shared (borrowed) handle cannot be converted"),
         }
     }
 }
@@ -215,6 +246,7 @@ pub fn new_chan<T: Send + 'static>(cap: Option<usize>, async_ctor: bool) -> (SH<
         let p = match &s {
             SH::S(x) => x.verif_lock_probe(),
             SH::A(x) => x.verif_lock_probe(),
+            SH::B(_) => unreachable!(),
         };
         crate::payload::set_drop_probe(Some(p));
     }
